@@ -25,7 +25,7 @@ LoadOutcome checked_load(const uint8_t* win, size_t n, const LoadOpts& o, MV* tr
   if (o.exact_window) { owned = (uint8_t*)malloc(n); if (n) memcpy(owned, win, n); w = owned; }
   if (w == nullptr) w = &dummy;
   unsigned L = o.L ? o.L : impl_max_stack();
-  out.ref = ref_load(w, n, L, sa_knobs().max_request);
+  out.ref = ref_load(w, n, L, sa_max_request());
   const RefLoad& ref = out.ref;
   uint64_t live_before = sa_live_sig(); uint64_t live_before_n = sa_live_count();
   const uint64_t SENT = 0xA5A5A5A5A5A5A5A5ull;
